@@ -404,27 +404,45 @@ class SmallSet {
     return 1U;
   }
 
+  // Note: when the last element of a large set is erased, the SmallSet is small again and the end iterator of the
+  // underlying set is not a valid iterator of this SmallSet anymore: return end() in this case.
+
   template <class I = const_iterator>
   iterator erase(const_iterator pos, typename std::enable_if<std::is_same<I, const T *>::value>::type * = 0) {
-    return isSmall() ? _vec.erase(pos) : _set.erase(pos);
+    if (isSmall()) {
+      return _vec.erase(pos);
+    }
+    iterator ret = _set.erase(pos);
+    return _set.empty() ? end() : ret;
   }
 
   template <class I = const_iterator>
   iterator erase(const_iterator pos, typename std::enable_if<!std::is_same<I, const T *>::value>::type * = 0) {
-    return isSmall() ? iterator(_vec.erase(pos.toVecIt())) : iterator(_set.erase(pos.toSetIt()));
+    if (isSmall()) {
+      return iterator(_vec.erase(pos.toVecIt()));
+    }
+    iterator ret(_set.erase(pos.toSetIt()));
+    return _set.empty() ? end() : ret;
   }
 
   template <class I = const_iterator>
   iterator erase(const_iterator first, const_iterator last,
                  typename std::enable_if<std::is_same<I, const T *>::value>::type * = 0) {
-    return isSmall() ? _vec.erase(first, last) : _set.erase(first, last);
+    if (isSmall()) {
+      return _vec.erase(first, last);
+    }
+    iterator ret = _set.erase(first, last);
+    return _set.empty() ? end() : ret;
   }
 
   template <class I = const_iterator>
   iterator erase(const_iterator first, const_iterator last,
                  typename std::enable_if<!std::is_same<I, const T *>::value>::type * = 0) {
-    return isSmall() ? iterator(_vec.erase(first.toVecIt(), last.toVecIt()))
-                     : iterator(_set.erase(first.toSetIt(), last.toSetIt()));
+    if (isSmall()) {
+      return iterator(_vec.erase(first.toVecIt(), last.toVecIt()));
+    }
+    iterator ret(_set.erase(first.toSetIt(), last.toSetIt()));
+    return _set.empty() ? end() : ret;
   }
 
   void swap(SmallSet &o) noexcept(noexcept(std::declval<VecType>().swap(std::declval<VecType &>())) &&noexcept(
